@@ -161,8 +161,9 @@ def op_specs(setup):
     ]
 
 
-def build(setup, executor, optimizer):
-    """The real EVQEMinimumEigensolver for `setup` (as vlib.solverkit.build_evqe) with the given executor and optimiser."""
+def build(setup, executor, optimizer, criterion=None, sampler=None, estimator=None, pass_manager=None):
+    """The real EVQEMinimumEigensolver for `setup` (as vlib.solverkit.build_evqe) with the given executor and optimiser
+    and, if given, this termination criterion / these primitive and pass-manager OBJECTS (else fresh ones)."""
     from queasars.circuit_evaluation.bitstring_evaluation import BitstringEvaluator
     from queasars.circuit_evaluation.configured_primitives import ConfiguredEstimatorV2, ConfiguredSamplerV2
     from queasars.minimum_eigensolvers.evqe.evqe import EVQEMinimumEigensolver, EVQEMinimumEigensolverConfiguration
@@ -170,16 +171,16 @@ def build(setup, executor, optimizer):
     from . import solverkit
 
     n = setup["n_qubits"]
-    est = ConfiguredEstimatorV2(estimator=solverkit.exact_estimator(), precision=0.0) if setup["evaluator"] == "estimator" else None
+    est = ConfiguredEstimatorV2(estimator=estimator if estimator is not None else solverkit.exact_estimator(), precision=0.0) if setup["evaluator"] == "estimator" else None
     cfg = EVQEMinimumEigensolverConfiguration(
         configured_estimator=est,
-        configured_sampler=ConfiguredSamplerV2(sampler=solverkit.ExactSampler(), shots=setup["shots"]),
-        pass_manager=solverkit._pass_manager(),
+        configured_sampler=ConfiguredSamplerV2(sampler=sampler if sampler is not None else solverkit.ExactSampler(), shots=setup["shots"]),
+        pass_manager=pass_manager if pass_manager is not None else solverkit._pass_manager(),
         optimizer=optimizer,
         optimizer_n_circuit_evaluations=setup["opt_estimate"],
         max_generations=setup["max_generations"],
         max_circuit_evaluations=setup["max_evals"],
-        termination_criterion=None,
+        termination_criterion=criterion,
         random_seed=setup["seed"],
         population_size=setup["population_size"],
         speciation_genetic_distance_threshold=setup["distance"],
